@@ -103,6 +103,19 @@ CLAIMED = {
           'violations: any exception from store/drain_metric, (metric, []) while others hold data, datapoints left after input '
           'stops, no valid pass partition (starvation), drained metric not the maximum, lag not respected.',
           'Lag clause checked for timesorted only (documented); any valid pass partition accepted.', 'DESIGN.md 3/C17'),
+  'C03': ('fault_enumeration', 'exactly-once matching of drained batches, backend call log and counters under enumerated fault plans and controlled schedules',
+          'The real writeForever() loop runs on a writer thread against an in-memory TimeSeriesDatabase plugin; every fault plan '
+          'with <= k raising calls among the first n backend calls (n=8,k=2 quick; n=12,k=3 thorough; rotating exception types) '
+          'plus random longer plans is executed under baseline, mirrored, preempted and random schedules, for all strategies and '
+          'create/update rate limits on a virtual clock. Each drained batch must map to exactly one successful write of its own '
+          'points, a droppedCreates increment or an errors increment / error log; counters must equal the backend log.',
+          'In-memory backend; tag queue not checked.', 'DESIGN.md 3/C03'),
+  'C04': ('exploration', 'end-state conservation at writer-thread exit with the stop placed at every scheduling point',
+          'Workloads ending in the stop (delivered in Twisted\'s order: before-shutdown trigger, running=False, join) run with the '
+          'real writeForever() under every single-preemption schedule (the stop lands between any two writer line steps incl. the '
+          'idle sleep), sampled second preemptions and random schedules, for strategies x MIN_TIMESTAMP_LAG x update/create '
+          'limits x MAX_UPDATES_PER_SECOND_ON_SHUTDOWN; at writer exit no datapoint accepted before the stop may still be cached.',
+          'Non-failing backend; virtual clock.', 'DESIGN.md 3/C04'),
 }
 
 NOT_YET = 'check not built yet (work in progress; see DESIGN.md)'
